@@ -57,20 +57,27 @@ def compile_schema(text):
     return compile_lvs(text)
 
 
-def lib_matches(checker, name):
-    out = set()
-    for rules, ctx in checker.match(name):
-        for rn in rules:
-            if rn.startswith('#_'):
-                continue
-            out.add((rn, frozenset((k, bytes(v)) for k, v in ctx.items() if not k.lstrip('-').isdigit())))
+def _add(out, rules, ctx):
+    for rn in rules:
+        if rn.startswith('#_'):
+            continue
+        out.add((rn, frozenset((k, bytes(v)) for k, v in ctx.items() if not k.lstrip('-').isdigit())))
+
+
+def _collect(it, out):
+    for rules, ctx in it:
+        _add(out, rules, ctx)
     return out
+
+
+def lib_matches(checker, name):
+    return _collect(checker.match(name), set())
 
 
 def run_case(case):
     r = Result()
     sch = case['schema']
-    text = L.render(sch, case.get('style', 0))
+    text = L.render(sch, case.get('style', 0), case.get('moves', ()))
     fns = G.user_fns()
     if chain_count(sch) > MAX_CHAINS:
         r.discarded = True      # expansion is exponential in repeated references; keep cases small (counted)
@@ -106,6 +113,7 @@ def run_case(case):
         extra = G.all_names(words[:3], 4)
         names += [n for i, n in enumerate(extra) if len(n) > longest + 1 and i % 3 == case.get('style', 0) % 3]
     n_match = n_nomatch = 0
+    held = None
     digest = T.enc_tlv(1, b'\x07' * 32)
     for i, name in enumerate(names):
         want = L.match_all(sch, name, fns, ex)
@@ -113,7 +121,21 @@ def run_case(case):
             n_match += 1
         else:
             n_nomatch += 1
+        if want and i % 3 == case.get('style', 0) % 3:
+            # the caller takes only the first match and drops the iterator (any(...), next(...), break)
+            try:
+                first = next(iter(checker.match(name)), None)
+                first2 = next(iter(loaded.match(name)), None)
+            except Exception as e:
+                r.bad(f'C11/match-raised/{type(e).__name__}/first-only', f'{e!r} name={_show(name)} :: {text}')
+                break
+            if first is None or first2 is None:
+                r.bad('C11/direct/missed-match/first-only', f'name={_show(name)} :: {text}')
+                break
         probes = [('direct', checker, name), ('loaded', loaded, name)]
+        if held is not None:
+            # an iterator over the matches of an EARLIER name is still open while this name is matched, and is finished afterwards
+            probes.append(('interleaved', checker, name))
         if i % 17 == 0 and name:
             probes.append(('direct+digest', checker, name + [digest]))
         for label, ck, nm in probes:
@@ -130,11 +152,29 @@ def run_case(case):
                 break
         if r.violations:
             break
+        if held is not None:
+            try:
+                rest = _collect(held[1], held[2])
+            except Exception as e:
+                r.bad(f'C11/match-raised/{type(e).__name__}/interleaved', f'{e!r} :: {text}')
+                break
+            if rest != held[3]:
+                r.bad('C11/direct/interleaved-iterators-disturb-each-other', f'name={_show(held[0])} while matching {_show(name)} :: {text}')
+                break
+            held = None
+        elif want and i % 4 == case.get('style', 0) % 4:
+            it = iter(checker.match(name))
+            acc = set()
+            try:
+                _add(acc, *next(it))
+                held = (name, it, acc, want)
+            except StopIteration:
+                pass
     has_ref = any('ref' in it for rl in sch['rules'] for it in rl['name'])
     has_cons = any(rl['cons'] for rl in sch['rules'])
     nontrivial = has_ref and has_cons and n_match > 0 and n_nomatch > 0
     r.key = text if nontrivial else None
-    r.classes = ('ref' if has_ref else 'noref', 'cons' if has_cons else 'nocons',
+    r.classes = ('ref' if has_ref else 'noref', 'cons' if has_cons else 'nocons', 'rules-moved' if case.get('moves') else 'generator-order',
                  f'matching-names:{"0" if not n_match else "1-20" if n_match <= 20 else ">20"}', f'names:{len(names)}')
     return r
 
@@ -148,7 +188,8 @@ def _showset(s):
 
 
 def _case(mode='base'):
-    return st.fixed_dictionaries({'schema': G.schema(mode=mode), 'style': st.integers(0, 5)})
+    moves = st.one_of(st.just([]), st.just([]), st.lists(st.tuples(st.integers(0, 7), st.integers(0, 7)).map(list), min_size=1, max_size=2))
+    return st.fixed_dictionaries({'schema': G.schema(mode=mode), 'style': st.integers(0, 5), 'moves': moves})
 
 
 SUBCHECKS = {
